@@ -55,10 +55,10 @@ def step2 (cfg : Cfg) (st : Db × Dict Nat) (f : Feature) : Py (Db × Dict Nat) 
   match db.insert row with
   | .ok db => pure (db, auto)
   | .error _ =>
-    let (fixed, _, db, auto) ← doMerge cfg db auto f id .merge
-    match fixed with
-    | some fx => pure (db.modifyRow (fx.id.getD id) (fun r => { r with attrs := fx.attrs }), auto)
-    | none => pure (db, auto)
+    let (fixed, final, db, auto) ← doMerge cfg db auto f id .merge
+    match final, fixed with
+    | .merge, some fx => pure (db.modifyRow (fx.id.getD id) (fun r => { r with attrs := fx.attrs }), auto)
+    | _, _ => pure (db, auto)
 
 theorem updateRelationsGtf_eq (cfg : Cfg) (db : Db) (auto : Dict Nat) :
     updateRelationsGtf cfg db auto =
